@@ -66,8 +66,16 @@ def service_part(rep, pid, r, tier, known, *, monitors, backends=('ram', 'sqlmem
         if be == 'sqlfile':
           td = tempfile.mkdtemp(dir=tmp)
         steps, snap, serv = svc.run_sequence(be, seq, recycle=recycle, tmpdir=td, per_step=True)
-        per_backend[be] = (steps, snap)
-        runs.append(('%s#%d' % (be, i), steps, snap))
+        if steps and steps[-1][1][:2] == ('Failed', 'ETimeout'):
+          concrete = True
+          rep.violation('%s did not return (deadlock, or a lock that is never released) [%s]' % (steps[-1][0][0], be),
+                        {'backend': be, 'sequence': [s[0] for s in steps], 'failing_step': steps[-1][0],
+                         'outcome': steps[-1][1]})
+          steps = steps[:-1]
+          per_backend[be] = (steps, snap)
+        else:
+          per_backend[be] = (steps, snap)
+          runs.append(('%s#%d' % (be, i), steps, snap))
         if td:
           try:
             serv.datastore._inner._connection.close()
@@ -91,6 +99,8 @@ def service_part(rep, pid, r, tier, known, *, monitors, backends=('ram', 'sqlmem
           before = after
         nontriv = sum(1 for s in steps if s[1][0] == 'Done') >= 3
         rep.case({'backend': be, 'sequence': [s[0] for s in steps][:8], 'outcomes': [s[1][:2] for s in steps][:8]}, nontriv)
+      if len(svc.HUNG) >= 4:
+        break   # calls keep hanging; each costs the full timeout, and the violation is already reported
       if compare_backends:
         ref = per_backend[backends[0]]
         for be in backends[1:]:
